@@ -5,6 +5,11 @@ package main
 import (
 	"fmt"
 	"math"
+	"os"
+	"path/filepath"
+	"regexp"
+	"strconv"
+	"strings"
 
 	"gonum.org/v1/gonum/dsp/fourier"
 	"gonum.org/v1/gonum/dsp/window"
@@ -439,91 +444,262 @@ func sameValsC(a, b []complex128) (int, bool) {
 	return 0, len(a) == len(b)
 }
 
-// ---- doc-literal: statements of the exported documentation that the
-// behaviour contradicts. Each is a separate case with its own FailClass so
-// that it can be listed (or the documentation fixed) individually.
+// ---- doc-literal: statements of the exported documentation compared with
+// behaviour. The documentation is NOT hard-coded: the doc comments of the
+// package source being checked (see docSrc) are parsed for the relevant statement, and behaviour is compared with what
+// the comment says NOW. A statement the harness cannot interpret is recorded
+// as outcome "unparsed" and is not a violation. Each case has its own
+// FailClass.
+
+// docComment returns the comment block immediately preceding the first line
+// of src that starts with decl, with the "//" markers removed.
+func docComment(src, decl string) string {
+	lines := strings.Split(src, "\n")
+	for i, l := range lines {
+		if !strings.HasPrefix(l, decl) {
+			continue
+		}
+		j := i
+		for j > 0 && strings.HasPrefix(lines[j-1], "//") {
+			j--
+		}
+		var b strings.Builder
+		for _, c := range lines[j:i] {
+			b.WriteString(strings.TrimPrefix(strings.TrimPrefix(c, "//"), " "))
+			b.WriteString("\n")
+		}
+		return b.String()
+	}
+	return ""
+}
+
+// docSrc returns the source text of a gonum file as the check should see it:
+// the text embedded at build time from the tree being built (so a fix
+// committed to /repo is seen), overridden by the patched copy that the driver
+// materialises under <work>/patched/<rel> for `verif check --patch` (go:embed
+// does not follow the build overlay, so the patched text has to be read from
+// there; <work> is the directory of VERIF_OUT).
+func docSrc(rel, embedded string) string {
+	if out := os.Getenv("VERIF_OUT"); out != "" {
+		if b, err := os.ReadFile(filepath.Join(filepath.Dir(out), "patched", rel)); err == nil {
+			return string(b)
+		}
+	}
+	return embedded
+}
+
+// oneLine collapses all white space (comments wrap lines).
+func oneLine(s string) string { return strings.Join(strings.Fields(s), " ") }
+
+// parseNum parses "0.54" or "25/46".
+func parseNum(s string) (float64, bool) {
+	if a, b, ok := strings.Cut(s, "/"); ok {
+		x, e1 := strconv.ParseFloat(a, 64)
+		y, e2 := strconv.ParseFloat(b, 64)
+		return x / y, e1 == nil && e2 == nil && y != 0
+	}
+	x, err := strconv.ParseFloat(s, 64)
+	return x, err == nil
+}
+
+var (
+	reDSTScale   = regexp.MustCompile(`another call to Transform will multiply the input sequence by 2\*\(n([-+])1\)`)
+	reSeqDstLen  = regexp.MustCompile(`the length of dst does not equal (the length of coeff|t\.Len\(\)),? Sequence will panic`)
+	reHamming    = regexp.MustCompile(`w\[k\] = ([0-9./]+) ?- ?([0-9./]+) ?\* ?cos\(2\*π\*k/\(N-1\)\)`)
+	reFlatTopA4  = regexp.MustCompile(`0\.006947368\*cos\((\d+)\*π\*k/\(N-1\)\)`)
+	reTukeyTaper = regexp.MustCompile(`w\[k\] = 0\.5 ?\* ?\(1 ?\+ ?cos\(π ?\* ?\(\|k ?- ?M\| ?- ?([^)]*\)?[^)]*)\) ?/ ?\(([^,]*)\)\)\),? \|k ?- ?M\| ?≥ ?(.*?) = 1, \|k ?- ?M\| ?< ?(\S+)`)
+)
+
+// tukeyFlat interprets a documented threshold expression as the flat
+// fraction f in "|k-M| >= f*M": "αM" -> alpha, "(1-α)M" / "(1-α)*M" -> 1-alpha.
+func tukeyFlat(expr string, alpha float64) (float64, bool) {
+	e := strings.NewReplacer(" ", "", "*", "", "·", "").Replace(expr)
+	switch e {
+	case "αM":
+		return alpha, true
+	case "(1-α)M", "(1−α)M":
+		return 1 - alpha, true
+	}
+	return 0, false
+}
 
 func genDocLiteral(g *vlib.G) {
-	g.Case("DST.Transform twice multiplies by 2*(n-1)", func(t *vlib.T) {
-		// doc of (*DST).Transform: "a call to Transform followed by another call
-		// to Transform will multiply the input sequence by 2*(n-1)".
+	g.Case("DST.Transform twice: documented scale", func(t *vlib.T) {
+		doc := oneLine(docComment(docSrc("dsp/fourier/sincos.go", fourier.VerifSrcSincos), "func (t *DST) Transform("))
+		m := reDSTScale.FindStringSubmatch(doc)
+		if m == nil {
+			t.Outcome("unparsed")
+			t.Detail(map[string]any{"doc": doc})
+			return
+		}
+		sign := 1
+		if m[1] == "-" {
+			sign = -1
+		}
 		for _, n := range []int{1, 2, 3, 5, 8, 16} {
 			d := fourier.NewDST(n)
 			x := make([]float64, n)
 			x[n/2] = 1
 			y := d.Transform(nil, d.Transform(nil, x))
-			doc, fftpack := float64(2*(n-1)), float64(2*(n+1))
-			if math.Abs(y[n/2]-doc) > 1e-9 {
-				if math.Abs(y[n/2]-fftpack) <= 1e-9 {
-					t.FailClass("doc-dst-scale", "DST n=%d: Transform(Transform(e))=%v*e; documentation says 2*(n-1)=%v, FFTPACK sint (and behaviour) is 2*(n+1)=%v", n, y[n/2], doc, fftpack)
-				} else {
-					t.Failf("DST n=%d: Transform(Transform(e))=%v*e, neither 2(n-1) nor 2(n+1)", n, y[n/2])
+			docScale := float64(2 * (n + sign))
+			if math.Abs(y[n/2]-docScale) > 1e-9 {
+				t.FailClass("doc-dst-scale", "DST n=%d: Transform(Transform(e))=%v*e; documentation says 2*(n%s1)=%v (FFTPACK sint: 2*(n+1)=%v)", n, y[n/2], m[1], docScale, 2*(n+1))
+				break
+			}
+		}
+		t.Nontrivial()
+		t.Outcome("doc says 2*(n" + m[1] + "1)")
+	})
+	g.Case("FFT.Sequence: documented dst length", func(t *vlib.T) {
+		doc := oneLine(docComment(docSrc("dsp/fourier/fourier.go", fourier.VerifSrcFourier), "func (t *FFT) Sequence("))
+		m := reSeqDstLen.FindStringSubmatch(doc)
+		if m == nil {
+			t.Outcome("unparsed")
+			t.Detail(map[string]any{"doc": doc})
+			return
+		}
+		for _, n := range []int{3, 8, 9} {
+			f := fourier.NewFFT(n)
+			coeff := make([]complex128, n/2+1)
+			want := n // t.Len()
+			if m[1] == "the length of coeff" {
+				want = len(coeff)
+			}
+			for _, l := range []int{len(coeff), n} {
+				_, p := panics(func() { f.Sequence(make([]float64, l), coeff) })
+				if p != (l != want) {
+					t.FailClass("doc-fft-sequence-dst-length", "FFT.Sequence n=%d: dst of length %d panics=%v; documentation says dst must have %s = %d", n, l, p, m[1], want)
+					t.Outcome("doc says " + m[1])
+					return
 				}
-				break
 			}
 		}
 		t.Nontrivial()
-		t.Outcome("doc")
+		t.Outcome("doc says " + m[1])
 	})
-	g.Case("FFT.Sequence dst length is len(coeff)", func(t *vlib.T) {
-		// doc of (*FFT).Sequence: "If dst is not nil and the length of dst does
-		// not equal the length of coeff, Sequence will panic."
-		n := 8
-		f := fourier.NewFFT(n)
-		coeff := make([]complex128, n/2+1)
-		_, p1 := panics(func() { f.Sequence(make([]float64, len(coeff)), coeff) }) // documented: fine
-		_, p2 := panics(func() { f.Sequence(make([]float64, n), coeff) })          // documented: panics
-		if p1 || !p2 {
-			t.FailClass("doc-fft-sequence-dst-length", "FFT.Sequence n=%d: dst of len(coeff)=%d panics=%v, dst of t.Len()=%d panics=%v; documentation says dst must have the length of coeff", n, len(coeff), p1, n, p2)
+	for _, v := range []struct {
+		name, decl string
+		src        string
+		f          func(N int) []float64
+	}{
+		{"Hamming", "func Hamming(", docSrc("dsp/window/window.go", window.VerifSrcWindow), func(N int) []float64 { return window.Hamming(onesF(N)) }},
+		{"HammingComplex", "func HammingComplex(", docSrc("dsp/window/window_complex.go", window.VerifSrcWindowComplex), func(N int) []float64 { return reals(window.HammingComplex(cplx(onesF(N)))) }},
+	} {
+		v := v
+		g.Case(v.name+": documented coefficients", func(t *vlib.T) {
+			doc := oneLine(docComment(v.src, v.decl))
+			m := reHamming.FindStringSubmatch(doc)
+			if m == nil {
+				t.Outcome("unparsed")
+				t.Detail(map[string]any{"doc": doc})
+				return
+			}
+			a0, ok0 := parseNum(m[1])
+			a1, ok1 := parseNum(m[2])
+			if !ok0 || !ok1 {
+				t.Outcome("unparsed")
+				return
+			}
+			N := 11
+			w := v.f(N)
+			for k := 0; k < N; k++ {
+				docv := a0 - a1*cosm(1, k, N)
+				if math.Abs(w[k]-docv) > winTol {
+					t.FailClass("doc-window-hamming-coefficients", "%s N=%d: w[%d]=%v; documented %s - %s*cos(2 pi k/(N-1)) = %v", v.name, N, k, w[k], m[1], m[2], docv)
+					break
+				}
+			}
+			t.Nontrivial()
+			t.Outcome("doc says " + m[1] + ", " + m[2])
+		})
+	}
+	for _, v := range []struct {
+		name, decl string
+		src        string
+		f          func(N int) []float64
+	}{
+		{"FlatTop", "func FlatTop(", docSrc("dsp/window/window.go", window.VerifSrcWindow), func(N int) []float64 { return window.FlatTop(onesF(N)) }},
+		{"FlatTopComplex", "func FlatTopComplex(", docSrc("dsp/window/window_complex.go", window.VerifSrcWindowComplex), func(N int) []float64 { return reals(window.FlatTopComplex(cplx(onesF(N)))) }},
+	} {
+		v := v
+		g.Case(v.name+": documented last term", func(t *vlib.T) {
+			doc := oneLine(docComment(v.src, v.decl))
+			m := reFlatTopA4.FindStringSubmatch(doc)
+			if m == nil {
+				t.Outcome("unparsed")
+				t.Detail(map[string]any{"doc": doc})
+				return
+			}
+			mult, err := strconv.Atoi(m[1])
+			if err != nil || mult%2 != 0 {
+				t.Outcome("unparsed")
+				return
+			}
+			N := 11
+			w := v.f(N)
+			a := flatTopCoef
+			for k := 0; k < N; k++ {
+				docv := a[0] - a[1]*cosm(1, k, N) + a[2]*cosm(2, k, N) - a[3]*cosm(3, k, N) + a[4]*cosm(mult/2, k, N)
+				if math.Abs(w[k]-docv) > winTol {
+					t.FailClass("doc-window-flattop-a4-term", "%s N=%d: w[%d]=%v; documented formula (last term cos(%d pi k/(N-1))) gives %v; implementation uses cos(8 pi k/(N-1))", v.name, N, k, w[k], mult, docv)
+					break
+				}
+			}
+			t.Nontrivial()
+			t.Outcome("doc says cos(" + m[1] + " pi k/(N-1))")
+		})
+	}
+	g.Case("Tukey: documented formula", func(t *vlib.T) {
+		// doc: w[k] = 0.5*(1+cos(pi*(|k-M| - A)/(B))), |k-M| >= C ; = 1, |k-M| < D
+		doc := oneLine(docComment(docSrc("dsp/window/window_parametric.go", window.VerifSrcWindowParametric), "type Tukey struct"))
+		m := reTukeyTaper.FindStringSubmatch(doc)
+		if m == nil {
+			t.Outcome("unparsed")
+			t.Detail(map[string]any{"doc": doc})
+			return
 		}
-		t.Nontrivial()
-		t.Outcome("doc")
-	})
-	g.Case("Hamming coefficients 25/46 21/46", func(t *vlib.T) {
-		N := 11
-		w := window.Hamming(onesF(N))
-		for k := 0; k < N; k++ {
-			doc := 25.0/46 - 21.0/46*cosm(1, k, N)
-			if math.Abs(w[k]-doc) > winTol {
-				t.FailClass("doc-window-hamming-coefficients", "Hamming N=%d: w[%d]=%v; documented 25/46-21/46*cos(2 pi k/(N-1))=%v (implementation uses 0.54/0.46)", N, k, w[k], doc)
-				break
+		for _, alpha := range []float64{0.3, 0.7} {
+			fA, okA := tukeyFlat(m[1], alpha)
+			fC, okC := tukeyFlat(m[3], alpha)
+			fD, okD := tukeyFlat(m[4], alpha)
+			// denominator B: "(1-α) * M" -> (1-alpha)*M ; "α*M" / "αM" -> alpha*M
+			den := strings.NewReplacer(" ", "", "*", "").Replace(m[2])
+			var fB float64
+			switch den {
+			case "(1-α)M":
+				fB = 1 - alpha
+			case "αM":
+				fB = alpha
+			default:
+				t.Outcome("unparsed")
+				t.Detail(map[string]any{"doc": doc, "den": den})
+				return
+			}
+			if !okA || !okC || !okD {
+				t.Outcome("unparsed")
+				t.Detail(map[string]any{"doc": doc, "groups": m[1:]})
+				return
+			}
+			N := 21
+			w := window.Tukey{Alpha: alpha}.Transform(onesF(N))
+			M := float64(N-1) / 2
+			for k := 0; k < N; k++ {
+				d := math.Abs(float64(k) - M)
+				docv := math.NaN()
+				if d >= fC*M {
+					docv = 0.5 * (1 + math.Cos(math.Pi*(d-fA*M)/(fB*M)))
+				}
+				if d < fD*M {
+					docv = 1
+				}
+				if !(math.Abs(w[k]-docv) <= 1e-12) {
+					t.FailClass("doc-window-tukey-alpha", "Tukey(%v) N=%d: w[%d]=%v; the documented formula gives %v (in the implementation, the leakage table and the cited references Alpha is the tapered fraction)", alpha, N, k, w[k], docv)
+					return
+				}
 			}
 		}
 		t.Nontrivial()
-		t.Outcome("doc")
-	})
-	g.Case("FlatTop last term cos(4 pi k/(N-1))", func(t *vlib.T) {
-		N := 11
-		w := window.FlatTop(onesF(N))
-		a := flatTopCoef
-		for k := 0; k < N; k++ {
-			doc := a[0] - a[1]*cosm(1, k, N) + a[2]*cosm(2, k, N) - a[3]*cosm(3, k, N) + a[4]*cosm(2, k, N)
-			if math.Abs(w[k]-doc) > winTol {
-				t.FailClass("doc-window-flattop-a4-term", "FlatTop N=%d: w[%d]=%v; documented formula (last term cos(4 pi k/(N-1))) gives %v; implementation uses cos(8 pi k/(N-1))", N, k, w[k], doc)
-				break
-			}
-		}
-		t.Nontrivial()
-		t.Outcome("doc")
-	})
-	g.Case("Tukey documented formula", func(t *vlib.T) {
-		// doc: w[k] = 0.5*(1+cos(pi*(|k-M|-alpha*M)/((1-alpha)*M))) for |k-M| >= alpha*M, 1 otherwise.
-		N, alpha := 21, 0.3
-		w := window.Tukey{Alpha: alpha}.Transform(onesF(N))
-		M := float64(N-1) / 2
-		for k := 0; k < N; k++ {
-			d := math.Abs(float64(k) - M)
-			doc := 1.0
-			if d >= alpha*M {
-				doc = 0.5 * (1 + math.Cos(math.Pi*(d-alpha*M)/((1-alpha)*M)))
-			}
-			if math.Abs(w[k]-doc) > 1e-12 {
-				t.FailClass("doc-window-tukey-alpha", "Tukey(%v) N=%d: w[%d]=%v; documented formula gives %v (the formula has alpha and 1-alpha exchanged relative to the implementation, to the leakage table and to the cited references)", alpha, N, k, w[k], doc)
-				break
-			}
-		}
-		t.Nontrivial()
-		t.Outcome("doc")
+		t.Outcome("doc threshold " + m[3])
 	})
 }
 
